@@ -46,7 +46,10 @@ def run_scenario(chk, sc, cfgseed, fields, axes):
     from amr_kitchen.mandoline import Mandoline
     rng = random.Random(cfgseed)
     cfg_ = gamma.Config.draw(rng, ndims=2, payload="tame")
-    lat = lattice.Lattice(sc["mesh"], sc["n1"], sc["n2"], axes=axes, ndims=2, scale=3)
+    lat = lattice.Lattice(sc["mesh"], sc["n1"], sc["n2"], axes=axes, ndims=2,
+                          # cells per lattice cell: drawn; at least three cells along each axis of the level-0 domain (the tool derives
+                          # the cell size of its coordinate grids from the second and third grid points)
+                          scale=max([3, 2, 4, 1][cfgseed % 4], -(-3 // min(sc["n1"], sc["n2"]))))
     ap = lat.ap("A", NAMES, files_of=lambda lv, b: rng.randint(1, 2),
                 shuffle=lambda lv, f, v: rng.sample(v, len(v)))
     flds = lattice.Fields(lat, cfgseed, payload="wild" if cfgseed % 2 else "tame")
